@@ -92,6 +92,19 @@ CHECKS = {
         "Trusts the 40-line reference FIFO; prune() is outside the quantifier (no caller in the server).",
         "DESIGN.md 4 C17",
     ),
+    "C03": (
+        "sync",
+        "exploration",
+        "runtime monitoring: client-side reference parser + program-derived oracle over the enumerated decision table of "
+        "application behaviours (DSL programs interpreted as real WSGI callables), real task/channel code",
+        "Each cell of the decision table (version x Connection x method x status class x declared length x body shape x "
+        "return kind incl. file_wrapper variants x failure point x send pattern) is run as a real request followed by a "
+        "probe request; the wire must parse strictly into one response per executed request with the program's status, "
+        "headers and bytes (cut at the declared length), and announced persistence must match what happens next (probe "
+        "served / EOF). Complete table in the thorough tier (exhaustive), every 3rd cell in quick; sampled pipelines.",
+        "Trusts vf/ref/response.py and vf/apps.intended(); programs outside the WSGI contract are not generated.",
+        "DESIGN.md 4 C03, 2.4, 2.5",
+    ),
 }
 
 PENDING = {}
